@@ -973,6 +973,15 @@ protected:
       req.path = httpReq.uri;
       req.headers = httpReq.headers;
       req.body = httpReq.body;
+      // handleIncomingData framed a chunked request by its chunk sizes; hand the
+      // handler the decoded content, not the chunk framing (RFC 9112 §7.1).
+      std::string transferEncoding = httpReq.getHeader("Transfer-Encoding");
+      std::transform(transferEncoding.begin(), transferEncoding.end(), transferEncoding.begin(),
+                     ::tolower);
+      if (transferEncoding.find("chunked") != std::string::npos)
+      {
+        req.body = HttpResponse::parseChunkedBody(httpReq.body);
+      }
 
       // Populate peer address information
       {
